@@ -516,9 +516,276 @@ M.contract(P_MU + ':NewFileCreator._assert_is_valid_path', params=dict(self=NEW_
 
 EXISTING_FILE_MODIFIER = Inst(maker_utils.ExistingFileModifier, _maker=Iface(MakerFunI), _file_check=Iface(FileCheckI))
 
+_REPLAY_APPEND = '''
+import os, shutil, tempfile
+from exactly_lib.impls.types.files_source.defs import ModificationType
+from exactly_lib.impls.types.files_source.impl.file_makers.regular import RegularFileMaker
+from exactly_lib.test_case.hard_error import HardErrorException
+from exactly_lib.type_val_deps.types.path import path_ddvs
+
+UNWRITABLE = '/proc/version'     # a regular file that cannot be opened for appending, even by root
+if not os.path.isfile(UNWRITABLE):
+    print('no unwritable regular file available'); sys.exit(2)
+
+
+class Contents:
+    def contents(self):
+        return self
+
+    def write_to(self, f):
+        f.write('x')
+
+
+d = tempfile.mkdtemp()
+try:
+    os.symlink(UNWRITABLE, os.path.join(d, 'existing'))
+    path = path_ddvs.absolute_file_name(os.path.join(d, 'existing')).value_when_no_dir_dependencies__d()
+    maker = RegularFileMaker(ModificationType.APPEND, Contents(), None)      # file existing += "x"
+    try:
+        error = maker.make__translate_hard_error(path)
+        print('HARD_ERROR message returned:', error is not None); sys.exit(0)
+    except HardErrorException:
+        print('HardErrorException'); sys.exit(0)
+    except OSError as ex:
+        print('`file existing += ...`: %s escapes FileMaker.make (the instruction ends as INTERNAL_ERROR, exit 129, '
+              'not HARD_ERROR): %r' % (type(ex).__name__, ex))
+        sys.exit(1)
+finally:
+    shutil.rmtree(d)
+'''
+
 M.contract(P_MU + ':ExistingFileModifier.make', params=dict(self=EXISTING_FILE_MODIFIER, path=DESCRIBED_PATH),
+           replay=lambda model, rf: _REPLAY_APPEND,
            raises={HardErrorException: {}},
            ensures={'the path exists with the right type; it was modified': lambda self, trace:
            events(trace, 'check:returned')[0][2].is_success and len(events(trace, 'do-make')) == 1},
            # the statement: populating "fails with HARD_ERROR" -- nothing but HardErrorException may escape
            raises_only=())
+
+
+# ---- the two makers
+
+P_DIR = 'exactly_lib.impls.types.files_source.impl.file_makers.dir_'
+P_REG = 'exactly_lib.impls.types.files_source.impl.file_makers.regular'
+
+
+class FilesSourceI(Interface):
+    """FilesSource.populate(directory): proved of file_list.Primitive above; fails with HardErrorException only"""
+    attrs = {'describer': Any_}
+    methods = {'populate': Method(event='populate', may_raise=(lambda interp, o: HardErrorException(None),))}
+
+
+class ContentsI(Interface):
+    methods = {'write_to': Method(event='write_to', may_raise=(lambda interp, o: HardErrorException(None),))}
+
+
+class StringSourceI(Interface):
+    methods = {'contents': Method(returns=Iface(ContentsI), pure=True)}
+
+
+DIR_MAKER = Inst(dir_maker.DirFileMaker, _modification=EnumOf(ModificationType), _contents=Opt(Iface(FilesSourceI)),
+                 _contents_describer=Any_, _modification_maker=Any_)
+REG_MAKER = Inst(regular_maker.RegularFileMaker, _modification=EnumOf(ModificationType),
+                 _contents=Iface(StringSourceI), _contents_description=Any_, _maker=Any_)
+
+
+def ops(trace):
+    """the file-system operations and populate / write calls of the trace, in order: (operation, path or object)"""
+    return [(e[0], e[1]) for e in trace if e[0] in ('mkdir', 'open', 'populate', 'write_to', 'close', 'unlink')]
+
+
+M.contract(P_DIR + ':DirFileMaker.__init__',
+           params=dict(self=Inst(dir_maker.DirFileMaker), modification=EnumOf(ModificationType),
+                       contents=Opt(Iface(FilesSourceI))), inline=True,
+           ensures={'= creates a new directory, += adds to an existing DIRECTORY': lambda self, modification:
+           (isinstance(self._modification_maker, maker_utils.NewFileCreator)
+            and self._modification_maker._maker == self._create_dir)
+           if modification is ModificationType.CREATE else
+           (isinstance(self._modification_maker, maker_utils.ExistingFileModifier)
+            and self._modification_maker._maker == self._add_to_dir
+            and self._modification_maker._file_check._expected_file_type is file_properties.FileType.DIRECTORY)},
+           raises_only=())
+
+M.contract(P_DIR + ':DirFileMaker._create_dir', params=dict(self=DIR_MAKER, path=DESCRIBED_PATH),
+           may_raise=(OSError, HardErrorException),
+           ensures={'the directory is made (with parents), then populated': lambda self, path, trace:
+           ops(trace) == ([('mkdir', path.primitive)] if self._contents is None
+                          else [('mkdir', path.primitive), ('populate', self._contents)])
+           and events(trace, 'mkdir')[0][2] == (True,)
+           and (self._contents is None or events(trace, 'populate')[0][2] == (path,))},
+           raises_only=())
+
+M.contract(P_DIR + ':DirFileMaker._add_to_dir', params=dict(self=DIR_MAKER, path=DESCRIBED_PATH),
+           may_raise=(HardErrorException,),
+           ensures={'the existing directory is populated, nothing else': lambda self, path, trace:
+           ops(trace) == ([] if self._contents is None else [('populate', self._contents)])},
+           raises_only=())
+
+M.contract(P_REG + ':RegularFileMaker.__init__',
+           params=dict(self=Inst(regular_maker.RegularFileMaker), modification=EnumOf(ModificationType),
+                       contents=Iface(StringSourceI), contents_description=Any_), inline=True,
+           ensures={'= creates a new file, += appends to an existing REGULAR file': lambda self, modification:
+           (isinstance(self._maker, maker_utils.NewFileCreator) and self._maker._maker == self._create_file)
+           if modification is ModificationType.CREATE else
+           (isinstance(self._maker, maker_utils.ExistingFileModifier) and self._maker._maker == self._append_to_file
+            and self._maker._file_check._expected_file_type is file_properties.FileType.REGULAR)},
+           raises_only=())
+
+M.contract(P_REG + ':RegularFileMaker._create_file', params=dict(self=REG_MAKER, path=DESCRIBED_PATH),
+           may_raise=(OSError, HardErrorException),
+           ensures={'parents are made, the file is created exclusively, written and closed': lambda self, path, trace:
+           [o[0] for o in ops(trace)] == ['mkdir', 'open', 'write_to', 'close']
+           and den(events(trace, 'mkdir')[0][1]) == pathspec.parent_of(den(path.primitive))
+           and events(trace, 'mkdir')[0][2] == (True, True)
+           and events(trace, 'open')[0][1] is path.primitive and events(trace, 'open')[0][2] == ('x',)},
+           raises_only=())
+
+M.contract(P_REG + ':RegularFileMaker._append_to_file', params=dict(self=REG_MAKER, path=DESCRIBED_PATH),
+           may_raise=(OSError, HardErrorException),
+           ensures={'the file is opened for appending, written and closed': lambda self, path, trace:
+           [o[0] for o in ops(trace)] == ['open', 'write_to', 'close']
+           and events(trace, 'open')[0][1] is path.primitive and events(trace, 'open')[0][2] == ('a',)},
+           raises_only=())
+
+
+# ============================================================================== the files matchers
+
+from pyvc.models import SIter
+from exactly_lib.impls.types.files_matcher.impl import num_files, emptiness, prune as prune_impl, \
+    sub_set_selection, model_modifier_utils
+from exactly_lib.impls.types.file_matcher.impl import file_type as file_type_impl, dir_contents
+from exactly_lib.type_val_prims.matcher.file_matcher import FileTypeAccess
+
+P_FM = 'exactly_lib.impls.types.files_matcher.impl'
+
+
+def _model_files(interp, self, args, kwargs):
+    """files(): a new iterator over THE files of the model"""
+    return SIter(interp.getattr(self, 'files_seq'), 0)
+
+
+class FilesMatcherModelI(Interface):
+    """any FilesMatcherModel: files() iterates its files (`files_seq`); sub_set / prune give models"""
+    target_class = FilesMatcherModel
+    attrs = {'files_seq': FILE_MODELS}
+    methods = {
+        'files': Method(model=_model_files),
+        'sub_set': Method(returns=Iface(lambda: FilesMatcherModelI), pure=True),
+        'prune': Method(returns=Iface(lambda: FilesMatcherModelI), pure=True),
+    }
+
+
+ANY_MODEL = Iface(FilesMatcherModelI)
+
+M.contract(P_FM + '.num_files:_PropertyGetter.get_from',
+           params=dict(self=Inst(num_files._PropertyGetter), model=ANY_MODEL), returns=Int,
+           ensures={'the number of files of the model': lambda model, result: result == len(model.files_seq)},
+           raises_only=())
+M.loop(P_FM + '.num_files:_PropertyGetter.get_from', 0, invariant=lambda _i, ret_val: ret_val == _i,
+       modifies=dict(ret_val=Int, _='local'))
+
+M.contract(P_FM + '.emptiness:_EmptinessMatcher.matches_w_trace',
+           params=dict(self=Inst(emptiness._EmptinessMatcher), model=ANY_MODEL),
+           ensures={'matches iff the model has no file': lambda model, result:
+           iff(result.value, len(model.files_seq) == 0)}, raises_only=())
+
+M.contract(P_FM + '.prune:_get_model', params=dict(dir_selector=FILE_MATCHER, model=ANY_MODEL), inline=True,
+           ensures={'the model pruned by the selector': lambda dir_selector, model, result:
+           result is model.prune(dir_selector)}, raises_only=())
+M.contract(P_FM + '.sub_set_selection:_get_model', params=dict(file_selector=FILE_MATCHER, model=ANY_MODEL),
+           inline=True,
+           ensures={'the sub set of the model selected by the selector': lambda file_selector, model, result:
+           result is model.sub_set(file_selector)}, raises_only=())
+
+_MODIFIER_CONF = OneOf(prune_impl._CONFIGURATION, sub_set_selection._CONFIGURATION)
+
+M.contract(P_FM + '.model_modifier_utils:_ModelGetter.get_from',
+           params=dict(self=Inst(model_modifier_utils._ModelGetter, _configuration=_MODIFIER_CONF,
+                                 _predicate=FILE_MATCHER), model=ANY_MODEL), inline=True,
+           ensures={'-with-pruned / -selection: the matcher on the result is applied to model.prune / model.sub_set':
+                        lambda self, model, result:
+                        result is (model.prune(self._predicate)
+                                   if self._configuration is prune_impl._CONFIGURATION
+                                   else model.sub_set(self._predicate))}, raises_only=())
+
+
+@M.check('matcher tables')
+def _tables(ctx):
+    ctx.obligation('prune._CONFIGURATION.get_model is prune._get_model; sub_set_selection likewise',
+                   prune_impl._CONFIGURATION.get_model is prune_impl._get_model
+                   and sub_set_selection._CONFIGURATION.get_model is sub_set_selection._get_model, 'enumeration')
+    ctx.obligation('FileType has exactly REGULAR, DIRECTORY, SYMLINK',
+                   {t.name for t in FileType} == {'REGULAR', 'DIRECTORY', 'SYMLINK'}, 'enumeration')
+
+
+# ---- file matcher `type`
+
+class TypeAccessI(Interface):
+    target_class = FileTypeAccess
+    methods = {'is_type': Method(returns=Bool, pure=True, may_raise=(OSError,)),
+               'stat': Method(returns=Any_, may_raise=(OSError,))}
+
+
+class TypedModelI(Interface):
+    target_class = FileMatcherModel
+    attrs = {'file_type_access': Iface(TypeAccessI), 'path': DESCRIBED_PATH}
+
+
+M.contract('exactly_lib.impls.file_properties:lookup_file_type', trusted=True, returns=Opt(EnumOf(FileType)),
+           params=dict(stat_result=Any_))
+M.contract('exactly_lib.impls.description_tree.custom_details:PathDdvDetailsRenderer.__init__', trusted=True,
+           params=dict(self=Any_, path=Any_))
+
+_TYPE_MATCHER = Custom(lambda interp, name: interp.call(file_type_impl.FileMatcherType,
+                                                        [EnumOf(FileType).make(interp, name + '.file_type')], {}))
+
+
+def _type_holds(model, file_type):
+    try:
+        return model.file_type_access.is_type(file_type)
+    except OSError:
+        return False
+
+
+M.contract('exactly_lib.impls.types.file_matcher.impl.file_type:FileMatcherType.matches_w_trace',
+           params=dict(self=_TYPE_MATCHER, model=Iface(TypedModelI)),
+           ensures={'matches iff the file has the type (an OSError is no match)': lambda self, model, result:
+           iff(result.value, _type_holds(model, self._file_type))}, raises_only=())
+
+# ---- dir-contents: the depth options reach `recursive` unchanged
+
+M.contract('exactly_lib.impls.types.file_matcher.impl.dir_contents:_RecursiveModelConstructor.make_model',
+           params=dict(self=Inst(dir_contents._RecursiveModelConstructor, _min_depth=Opt(Nat), _max_depth=Opt(Nat)),
+                       model=Iface(TypedModelI)), inline=True,
+           ensures={'recursive model of the path of the file with the given limits': lambda self, model, result:
+           isinstance(result._files_generator, models._FilesGeneratorForRecursive)
+           and result._dir_path is model.path
+           and same_opt(result._files_generator._min_depth, self._min_depth)
+           and same_opt(result._files_generator._max_depth, self._max_depth)
+           and result._files_selection is None and result._directory_prune is None}, raises_only=())
+
+M.contract('exactly_lib.impls.types.file_matcher.impl.dir_contents:_NonRecursiveModelConstructor.make_model',
+           params=dict(self=Inst(dir_contents._NonRecursiveModelConstructor), model=Iface(TypedModelI)), inline=True,
+           ensures={'non-recursive model of the path of the file': lambda model, result:
+           isinstance(result._files_generator, models._FilesGeneratorForNonRecursive)
+           and result._dir_path is model.path and result._files_selection is None
+           and result._directory_prune is None}, raises_only=())
+
+
+class IntDdvI(Interface):
+    methods = {'value_of_any_dependency': Method(returns=Nat, pure=True), 'validator': Method(returns=Any_)}
+
+
+def _opt_value(ddv, tcds):
+    return None if ddv is None else ddv.value_of_any_dependency(tcds)
+
+
+M.contract('exactly_lib.type_val_deps.dep_variants.ddv.ddv_validators:all_of', trusted=True, returns=Any_,
+           params=dict(validators=Any_))
+
+M.contract('exactly_lib.impls.types.file_matcher.impl.dir_contents:_RecursiveModelConstructorDdv.value_of_any_dependency',
+           params=dict(self=Inst(dir_contents._RecursiveModelConstructorDdv, _min_depth=Opt(Iface(IntDdvI)),
+                                 _max_depth=Opt(Iface(IntDdvI)), _validator=Any_), tcds=Any_), inline=True,
+           ensures={'the values of the two depth options, each in its own place': lambda self, tcds, result:
+           same_opt(result.primitive(None)._min_depth, _opt_value(self._min_depth, tcds))
+           and same_opt(result.primitive(None)._max_depth, _opt_value(self._max_depth, tcds))}, raises_only=())
